@@ -61,6 +61,17 @@ class C08(Prop):
                 b = 2 ** rng.range(0, 30) * 5 ** rng.range(0, 30)  # terminating
             lim, el = rng.range(1, 20), rng.range(1, 15)
             out.append(Case(f"disp {a} {b} {lim} {el} {0 if rng.chance(1, 10) else 1}", "random", f"{a}/{b} limit={lim} exp={el}"))
+        # every order of magnitude up to 10^720 and down to 10^-720 (the exponent that is printed is
+        # a digit COUNT of a big integer: estimates by bit length go wrong only at a few hundred
+        # digits), just above, at and just below a power of ten
+        ks = range(0, 721) if tier == "thorough" else list(range(0, 721, 3)) + [205, 206, 264, 351, 410, 469, 497, 256, 257, 512, 513, 681, 682]
+        for k in ks:
+            p10 = 10 ** k
+            for num, den in ((p10, 1), (p10 + 1, 1), (p10 - 1, 1), (1002 * p10, 1000), (9999999999999999 * p10, 10 ** 15), (1, p10), (3, 1002 * p10)):
+                if num == 0:
+                    continue
+                for lim, el in ((12, 12), (3, 2)):
+                    out.append(Case(f"disp {num} {den} {lim} {el} 1", "magnitude", f"10^{k} family {num if k < 30 else '…'}/{den if k < 30 else '…'} limit={lim} exp={el}"))
         return out
 
 
@@ -173,6 +184,10 @@ class C19(Prop):
         for pw in list(range(2, 1101 if tier != "quick" else 700)) + [4095, 4096, 4097, 65535, 65536, 65537, 99999, 1000001, 16777217]:
             t = f"1 m^{pw}" if pw % 2 else f"1 s^-{pw}"
             out.append(Case(f"cli {C.hexs(t)} decimal", "power-range", t))
+        # orders of magnitude in the default decimal format (the printed exponent is a digit count)
+        for k in list(range(13, 720, 11 if tier == "quick" else 1)) + [205, 206, 264, 351, 410, 469, 497]:
+            for t in (f"10^{k}", f"1.002 * 10^{k}", f"1 / 10^{k}", f"3 m * 10^{k}"):
+                out.append(Case(f"cli {C.hexs(t)} decimal", "magnitude", t))
         # several results in one query, values and errors in every order (what is printed for one
         # result must come after everything printed for the results before it)
         import itertools as _it
